@@ -311,14 +311,6 @@ fn exec_c02(sc: &GitScenario) -> Outcome {
                 }
                 let begin = begin.map(|b| b.min(e.shas.len() - 1));
                 let end = end.map(|x| x.min(e.shas.len() - 1));
-                let (_, want) = match expected_changes(&mut e, begin, end) {
-                    Ok(x) => x,
-                    Err(m) => {
-                        out.advisories.push(format!("model_uncertain: {}", m));
-                        out.skipped = Some("model_uncertain(R-git disagrees with raw git)".into());
-                        return out;
-                    }
-                };
                 let mut a = vec!["analyze".to_string(), "--changes".into()];
                 if let Some(b) = begin {
                     a.push("--begin".into());
@@ -328,8 +320,18 @@ fn exec_c02(sc: &GitScenario) -> Outcome {
                     a.push("--end".into());
                     a.push(e.shas[x].clone());
                 }
+                // monorail is asked first; only then is raw git consulted for the double oracle (a plain
+                // `git diff` refreshes the index's stat cache, which would cure a stale entry before the SUT sees it)
                 let o = e.w.cli_v(&a);
                 out.sub_evals += 1;
+                let (_, want) = match expected_changes(&mut e, begin, end) {
+                    Ok(x) => x,
+                    Err(m) => {
+                        out.advisories.push(format!("model_uncertain: {}", m));
+                        out.skipped = Some("model_uncertain(R-git disagrees with raw git)".into());
+                        return out;
+                    }
+                };
                 let ctx = format!("op {} analyze begin={:?} end={:?}", i, begin, end);
                 match sut_changes(&o) {
                     Ok(Some(got)) => {
@@ -601,6 +603,9 @@ fn exec_c07(sc: &C07Scenario) -> Outcome {
         }
         // an untracked file that was created and then deleted again is simply gone: not a change
         let want: BTreeSet<String> = edited.iter().filter(|p| e.model.wt.contains_key(*p) || e.model.head().contains_key(*p) || e.model.index.contains_key(*p)).cloned().collect();
+        // monorail is asked first; raw git (whose `diff` refreshes the index's stat cache) only afterwards
+        let a = e.w.cli(&["analyze", "--changes"]);
+        out.sub_evals += 1;
         // exclude the exotic: model must agree with raw git about what differs from HEAD
         let head_sha = e.shas.last().unwrap().clone();
         match raw_git_changes(&mut e.w, &head_sha, None) {
@@ -618,8 +623,6 @@ fn exec_c07(sc: &C07Scenario) -> Outcome {
                 return out;
             }
         }
-        let a = e.w.cli(&["analyze", "--changes"]);
-        out.sub_evals += 1;
         match a.json() {
             Some(d) if a.code == Some(0) => {
                 let chs: Vec<String> = d["changes"].as_array().map(|x| x.iter().map(|c| c["path"].as_str().unwrap_or("").to_string()).collect()).unwrap_or_default();
